@@ -152,6 +152,80 @@ Fixpoint infer_kind (l : list json) (cur : vkind) : option vkind :=
       end
   end.
 
+(* generateDeclaredType, after the type has been generated (285-357): named types are not declared
+   again; a struct / primitive keeps its validators as a method *)
+Definition declare (scope : str) (sub : bool) (c : scon) (r : gty * bounds) : res (gty * bounds) :=
+  let '(t, b) := r in
+  if is_named_ty t then Done (t, b)
+  else
+    let om (vs : list validator) (force : bool) : option (list validator) :=
+      if g_only_models cf then None
+      else if force || sub || negb (Nat.eqb (length vs) 0) then Some vs else None in
+    match t with
+    | TStruct [] fs (Some vs) => Done (TStruct scope fs (om vs false), b)
+    | TStruct [] fs None => Done (TStruct scope fs (om [] false), b)
+    | TString | TBool | TFloat | TInt _ =>
+        Done (TNamed scope t (om (field_validators [] [] c b t false) false), b)
+    | TMap _ => Done (TNamed scope t (if g_only_models cf then None else if sub then Some [] else None), b)
+    | _ => Done (TNamed scope t None, b)
+    end.
+
+(* addStructField (727-807), given the type generated for the property *)
+Definition ref_nillable (self : option str) (x : str) : bool :=
+  match self with
+  | Some me => if str_eqb me x then false else def_nillable (S (length defs)) x
+  | None => def_nillable (S (length defs)) x
+  end.
+
+Definition finfo := (field * bool * list validator)%type.     (* field, counts as required, its validators *)
+
+Definition make_field (c : scon) (self : option str) (fname k : str) (p : schema) (ty : gty) (bp : bounds) : finfo :=
+  let required := mem k (c_required c) in
+  let pc := s_con p in
+  match c_default pc with
+  | Some dv =>
+      let dv' := default_property_value p dv in
+      (mkField fname k (negb required) ty (Some dv') false, false,
+       VDefault fname k ty dv' :: field_validators fname k pc bp ty false)
+  | None =>
+      if required then (mkField fname k false ty None false, true, field_validators fname k pc bp ty false)
+      else
+        let ty' := if nillable_ty (ref_nillable self) ty then ty else TPtr ty in
+        (mkField fname k true ty' None false, false, field_validators fname k pc bp ty' false)
+  end.
+
+Definition gen_field (rec : schema -> str -> res (gty * bounds)) (c : scon) (self : option str) (scope : str)
+                     (np : str * (str * schema)) : res finfo :=
+  let '(fname, (k, p)) := np in
+  rbind (rec p (scope ++ fname)) (fun r => Done (make_field c self fname k p (fst r) (snd r))).
+
+(* the struct type and its validator list: required checks first, then per field in order (301-338),
+   then the additionalProperties field (653-718) *)
+Definition build_struct (s : schema) (b0 : bounds) (infos : list finfo) : res (gty * bounds) :=
+  let fields := map (fun i : finfo => fst (fst i)) infos in
+  let reqs := flat_map (fun i : finfo => if snd (fst i) then [VRequired (f_json (fst (fst i)))] else []) infos in
+  let fvs := flat_map (fun i : finfo => snd i) infos in
+  match s_addl s, s_addl_false s with
+  | Some a, false =>
+      match c_types (s_con a) with
+      | _ :: _ :: _ => GErr
+      | [t] =>
+          let vt := match t with
+                    | SString => TString | SArray => TSlice false TIface | SNumber => TFloat
+                    | SInteger => TInt KInt | SBoolean => TBool | _ => TIface end in
+          let fa := mkField s_AdditionalProperties [] false (TMap vt) (Some (JObj [])) true in
+          Done (TStruct [] (fields ++ [fa]) (Some (reqs ++ fvs ++ [VDefault s_AdditionalProperties [] (TMap vt) (JObj [])])), b0)
+      | [] =>
+          let fa := mkField s_AdditionalProperties [] false TIface None true in
+          Done (TStruct [] (fields ++ [fa]) (Some (reqs ++ fvs)), b0)
+      end
+  | _, _ => Done (TStruct [] fields (Some (reqs ++ fvs)), b0)
+  end.
+
+Definition prop_names (props : list (str * schema)) : list (str * (str * schema)) :=
+  let sorted := sort_props props in
+  combine (field_names (map (fun kp => idf (fst kp)) sorted)) sorted.
+
 Fixpoint gen (fuel : nat) (m : mode) (self : option str) (sub : bool) (s : schema) (scope : str) {struct fuel}
   : res (gty * bounds) :=
   match fuel with
@@ -192,21 +266,7 @@ Fixpoint gen (fuel : nat) (m : mode) (self : option str) (sub : bool) (s : schem
       match c_enum c with
       | Some _ => gen f MType self sub s scope       (* generateEnumType, shared with generateType *)
       | None =>
-          rbind (gen f MType self sub s scope) (fun r =>
-            let '(t, b) := r in
-            if is_named_ty t then Done (t, b)
-            else
-              let om (vs : list validator) (force : bool) : option (list validator) :=
-                if g_only_models cf then None
-                else if force || sub || negb (Nat.eqb (length vs) 0) then Some vs else None in
-              match t with
-              | TStruct [] fs (Some vs) => Done (TStruct scope fs (om vs false), b)
-              | TStruct [] fs None => Done (TStruct scope fs (om [] false), b)
-              | TString | TBool | TFloat | TInt _ =>
-                  Done (TNamed scope t (om (field_validators [] [] c b t false) false), b)
-              | TMap _ => Done (TNamed scope t (if g_only_models cf then None else if sub then Some [] else None), b)
-              | _ => Done (TNamed scope t None, b)
-              end)
+          rbind (gen f MType self sub s scope) (declare scope sub c)
       end
   (* ---------------- generateType (472-537) ---------------- *)
   | MType =>
@@ -278,50 +338,8 @@ Fixpoint gen (fuel : nat) (m : mode) (self : option str) (sub : bool) (s : schem
                   end
               | _, _ :: _, _ | _, _, _ :: _ => GUnmod
               | props, [], [] =>
-                  let sorted := sort_props props in
-                  let names := field_names (map (fun kp => idf (fst kp)) sorted) in
-                  rbind (rmap (fun np =>
-                           let '(fname, (k, p)) := np in
-                           rbind (gen f MInline self false p (scope ++ fname)) (fun r =>
-                             let '(ty, bp) := r in
-                             let required := mem k (c_required c) in
-                             let pc := s_con p in
-                             match c_default pc with
-                             | Some dv =>
-                                 let dv' := default_property_value p dv in
-                                 Done (mkField fname k (negb required) ty (Some dv') false, false,
-                                       VDefault fname k ty dv' :: field_validators fname k pc bp ty false)
-                             | None =>
-                                 if required then
-                                   Done (mkField fname k false ty None false, true, field_validators fname k pc bp ty false)
-                                 else
-                                   let ty' := if nillable_ty (fun x => match self with Some me => if str_eqb me x then false else def_nillable (S (length defs)) x
-                                                                              | None => def_nillable (S (length defs)) x end) ty
-                                              then ty else TPtr ty in
-                                   Done (mkField fname k true ty' None false, false, field_validators fname k pc bp ty' false)
-                             end))
-                         (combine names sorted))
-                  (fun infos : list (field * bool * list validator) =>
-                     let fields := map (fun i : field * bool * list validator => fst (fst i)) infos in
-                     let reqs := flat_map (fun i : field * bool * list validator => if snd (fst i) then [VRequired (f_json (fst (fst i)))] else []) infos in
-                     let fvs := flat_map (fun i : field * bool * list validator => snd i) infos in
-                     (* additionalProperties (653-718) *)
-                     match s_addl s, s_addl_false s with
-                     | Some a, false =>
-                         match c_types (s_con a) with
-                         | _ :: _ :: _ => GErr
-                         | [t] =>
-                             let vt := match t with
-                                       | SString => TString | SArray => TSlice false TIface | SNumber => TFloat
-                                       | SInteger => TInt KInt | SBoolean => TBool | _ => TIface end in
-                             let fa := mkField s_AdditionalProperties [] false (TMap vt) (Some (JObj [])) true in
-                             Done (TStruct [] (fields ++ [fa]) (Some (reqs ++ fvs ++ [VDefault s_AdditionalProperties [] (TMap vt) (JObj [])])), b0)
-                         | [] =>
-                             let fa := mkField s_AdditionalProperties [] false TIface None true in
-                             Done (TStruct [] (fields ++ [fa]) (Some (reqs ++ fvs)), b0)
-                         end
-                     | _, _ => Done (TStruct [] fields (Some (reqs ++ fvs)), b0)
-                     end)
+                  rbind (rmap (gen_field (fun p sc => gen f MInline self false p sc) c self scope) (prop_names props))
+                        (build_struct s b0)
               end
           | SNull => Done (TIface, b0)
           | _ => primitive t (c_format c) ptr b0
